@@ -315,6 +315,49 @@ func (*ExprBridge).EvaluateExpression
   observe runErr := Run#1
   atreturn [C06] a-cached-program-that-fails-on-this-row-is-not-the-answer-the-row-environment-is-tried: $runErr != nil ==> $evals >= 1
 
+// ---- the process-wide function registry: a registration never takes a name (or alias, in whatever letter case it is
+// written) that is already in use, so one instance's custom function cannot replace what other instances resolve
+extern iface.Function.GetName
+  props C20 C06
+extern iface.Function.GetAliases
+  props C20 C06
+extern iface.Function.GetType
+  props C20 C06
+extern RegisterAggregatorAdapter
+  props C20 C06 C03
+
+func (*FunctionRegistry).Register
+  props C20 C06
+  acquires r.mu
+  modifies mapof(r.functions), mapof(r.categories), r.snapshot
+  ensures no-name-in-use-is-ever-rebound: forallv(k, "", old(dom(r.functions, k)) ==> dom(r.functions, k) && r.functions[k] == old(r.functions[k]))
+  ensures a-refused-registration-changes-nothing: result != nil ==> forallv(k, "", dom(r.functions, k) <==> old(dom(r.functions, k)))
+  loop 1 invariant forallv(k, "", (dom(r.functions, k) <==> old(dom(r.functions, k))) && r.functions[k] == old(r.functions[k])) && forall(j, 0, $i, !dom(r.functions, strings.ToLower(aliases[j]))) && !dom(r.functions, name) && held(r.mu) && wheld(r.mu)
+  loop 2 invariant forall(j, 0, len(aliases), !old(dom(r.functions, strings.ToLower(aliases[j])))) && !old(dom(r.functions, name)) && held(r.mu) && wheld(r.mu)
+  loop 2 invariant forallv(k, "", old(dom(r.functions, k)) ==> dom(r.functions, k) && r.functions[k] == old(r.functions[k]))
+
+// ---- the element set behind array_distinct / union / intersect / except: NULL and every hashable value live in the map,
+// the rest (slices, maps) in a list compared structurally; membership asks the same place that insertion fills
+pure reflect.TypeOf
+pred setHashable(e) := e == nil || reflect.TypeOf(e).Comparable()
+pred setHas(s, e) := ite(setHashable(e), s.m[e], exists(j, 0, len(s.extra), reflect.DeepEqual(s.extra[j], e)))
+
+func (*hashSafeSet).has
+  props C06
+  requires s != nil
+  ensures membership-asks-where-insertion-puts: result <==> setHas(s, elem)
+  loop 1 invariant forall(j, 0, $i, !reflect.DeepEqual(s.extra[j], elem))
+
+func (*hashSafeSet).add
+  props C06
+  requires s != nil && s.m != nil
+  modifies mapof(s.m), s.extra
+  ensures reports-whether-new: result <==> !old(setHas(s, elem))
+  ensures a-hashable-element-is-a-member-afterwards: setHashable(elem) ==> s.m[elem]
+  ensures an-unhashable-element-is-appended-when-new: !setHashable(elem) && result ==> len(s.extra) == len(old(s.extra)) + 1 && s.extra[len(s.extra) - 1] == elem
+  ensures nothing-else-changes: forallv(k, elem, k != elem ==> s.m[k] == old(s.m[k])) && forall(j, 0, len(old(s.extra)), s.extra[j] == old(s.extra)[j])
+  loop 1 invariant forall(j, 0, $i, !reflect.DeepEqual(s.extra[j], elem)) && s.extra == old(s.extra)
+
 // ---- accumulators reached through the aggregator interface (frame-only assumed contracts)
 extern iface.LegacyAggregatorFunction.Add
   props C17
@@ -369,9 +412,16 @@ func toFloat64Generic
   ensures floats: hasType(v, float64) ==> result1 && result0 == realval(v)
   ensures others: !(hasType(v, int) || hasType(v, int32) || hasType(v, int64) || hasType(v, float64)) ==> !result1
 
-extern analyticEqual
+pure reflect.DeepEqual
+
+// value equality of the change detectors: NULL equals only NULL, two numbers compare by value whatever their types,
+// everything else (a number against a non-number included) is structural equality
+func analyticEqual
   props C14
   option pure
+  ensures null-equals-only-null: a == nil || b == nil ==> (result <==> a == nil && b == nil)
+  ensures two-numbers-compare-by-value-across-types: a != nil && b != nil && second(toFloat64Generic(a)) && second(toFloat64Generic(b)) ==> (result <==> toFloat64Generic(a) == toFloat64Generic(b))
+  ensures anything-else-is-structural-equality: a != nil && b != nil && !(second(toFloat64Generic(a)) && second(toFloat64Generic(b))) ==> (result <==> reflect.DeepEqual(a, b))
 
 pred lagOffset(args) := ite(len(args) >= 2 && second(analyticToInt(args[1])) && analyticToInt(args[1]) > 0, analyticToInt(args[1]), 1)
 pred lagSkips(args) := ite(len(args) >= 4, AnalyticToBool(args[3]), true) && args[0] == nil
